@@ -2,6 +2,9 @@
 //! `--cfg beetswap_verif`) on generated inputs and prints one JSON case per line
 //! (`{"i": input term, "o": observed output term, "tags": [...], "nt": bool}`).
 //! The Coq side (theories/Corr_*.v) evaluates the model on the same inputs and compares.
+mod e_builder;
+mod e_convert;
+mod e_hasher;
 mod e_prefix;
 mod gen;
 mod json;
@@ -23,6 +26,9 @@ fn main() {
 
     match engine {
         "prefix" => e_prefix::run(seed, n, tier),
+        "convert" => e_convert::run(seed, n, tier),
+        "builder" => e_builder::run(seed, n, tier),
+        "hasher" => e_hasher::run(seed, n, tier),
         _ => {
             eprintln!("unknown engine {engine}");
             std::process::exit(2);
